@@ -529,9 +529,221 @@ Proof.
   - rewrite IH, in_app_iff. simpl. tauto.
 Qed.
 
+Lemma nodup_snoc {A} (l : list A) h : NoDup l -> ~ In h l -> NoDup (l ++ [h]).
+Proof.
+  induction l as [|x r IH]; simpl; intros H Hn; [constructor; [intros [] | constructor]|].
+  inversion H as [|? ? Hx Hr]; subst. constructor.
+  - intros Hin. apply in_app_or in Hin. destruct Hin as [Hin|[Hin|[]]]; [exact (Hx Hin) | apply Hn; left; congruence].
+  - apply IH; [exact Hr | intros Hin; apply Hn; right; exact Hin].
+Qed.
+
 Lemma add_new_nodup l new : NoDup l -> NoDup (add_new l new).
 Proof.
   revert l. induction new as [|h r IH]; intros l H; simpl; [exact H|].
   destruct (mem_key h l) eqn:E; [apply IH; exact H|].
-  apply IH. apply mem_key_false in E. apply NoDup_app_nodup_tail; assumption.
+  apply IH. apply mem_key_false in E. apply nodup_snoc; assumption.
+Qed.
+
+(* ---- scrub: memory side (flat_map) and file side (fold of put / delete) ---- *)
+Definition scrub1 (c : key) (g : pgroup) : option pgroup :=
+  if mem_key c (pg_members g)
+  then match rm_member c (pg_members g) with [] => None | ms => Some (pg_id g, pg_name g, ms) end
+  else Some g.
+
+Lemma scrub_In c L h : In h (scrub c L) <-> exists g, In g L /\ scrub1 c g = Some h.
+Proof.
+  unfold scrub. rewrite in_flat_map. unfold scrub1. split; intros [g [Hg H]]; exists g; (split; [exact Hg|]).
+  - destruct (mem_key c (pg_members g)); [|destruct H as [<-|[]]; reflexivity].
+    destruct (rm_member c (pg_members g)); [destruct H | destruct H as [<-|[]]; reflexivity].
+  - destruct (mem_key c (pg_members g)); [|inversion H; left; reflexivity].
+    destruct (rm_member c (pg_members g)); [discriminate | inversion H; left; reflexivity].
+Qed.
+
+Lemma scrub1_id c g h : scrub1 c g = Some h -> pg_id h = pg_id g.
+Proof.
+  unfold scrub1. destruct (mem_key c (pg_members g)); [|intros H; inversion H; reflexivity].
+  destruct (rm_member c (pg_members g)); [discriminate | intros H; inversion H; reflexivity].
+Qed.
+
+Lemma scrub1_members c g h : NoDup (pg_members g) -> scrub1 c g = Some h ->
+  NoDup (pg_members h) /\ forall m, In m (pg_members h) <-> In m (pg_members g) /\ m <> c.
+Proof.
+  intros Hn. unfold scrub1. destruct (mem_key c (pg_members g)) eqn:E.
+  - pose proof (rm_member_nodup c _ Hn) as H1. pose proof (fun m => rm_member_In c _ m Hn) as H2.
+    destruct (rm_member c (pg_members g)) as [|x r]; [discriminate|]. intros H; inversion H; subst h.
+    unfold pg_members at 1 3. simpl. split; [exact H1 | exact H2].
+  - intros H; inversion H; subst h. split; [exact Hn|]. intros m. apply mem_key_false in E.
+    split; [intros Hm; split; [exact Hm | intros ->; exact (E Hm)] | tauto].
+Qed.
+
+Lemma scrub_ids_sub c L x : In x (map pg_id (scrub c L)) -> In x (map pg_id L).
+Proof.
+  intros H. apply in_map_iff in H. destruct H as [h [<- Hh]]. apply scrub_In in Hh. destruct Hh as [g [Hg Hs]].
+  rewrite (scrub1_id _ _ _ Hs). apply in_map. exact Hg.
+Qed.
+
+Lemma scrub_cons c g L : scrub c (g :: L) = (match scrub1 c g with Some h => [h] | None => [] end) ++ scrub c L.
+Proof.
+  unfold scrub at 1. simpl. f_equal. unfold scrub1. destruct (mem_key c (pg_members g)); [|reflexivity].
+  destruct (rm_member c (pg_members g)); reflexivity.
+Qed.
+
+Lemma scrub_ids_nodup c L : NoDup (map pg_id L) -> NoDup (map pg_id (scrub c L)).
+Proof.
+  induction L as [|g r IH]; intros H; [constructor|].
+  simpl in H. inversion H as [|? ? Hn Hr]; subst. rewrite scrub_cons.
+  destruct (scrub1 c g) as [h|] eqn:E; simpl; [|apply IH; exact Hr].
+  constructor; [|apply IH; exact Hr]. rewrite (scrub1_id _ _ _ E). intros Hin. apply Hn. eapply scrub_ids_sub. exact Hin.
+Qed.
+
+Definition sstep (c : key) (L : list pgroup) (g : pgroup) : list pgroup :=
+  if mem_key c (pg_members g)
+  then match rm_member c (pg_members g) with
+       | [] => pg_del (pg_id g) L
+       | ms => pg_put (pg_id g, pg_name g, ms) L
+       end
+  else L.
+
+Lemma sstep_spec c L g : NoDup (map pg_id L) -> In g L ->
+  NoDup (map pg_id (sstep c L g)) /\
+  forall h, In h (sstep c L g) <-> (In h L /\ pg_id h <> pg_id g) \/ scrub1 c g = Some h.
+Proof.
+  intros Hn Hg. unfold sstep, scrub1. destruct (mem_key c (pg_members g)).
+  - destruct (rm_member c (pg_members g)) as [|x r].
+    + split; [apply pg_del_ids_nodup; exact Hn|]. intros h. rewrite pg_del_In.
+      split; [intros H; left; exact H | intros [H|H]; [exact H | discriminate]].
+    + split; [apply pg_put_ids_nodup; exact Hn|]. intros h. rewrite (pg_put_In _ _ _ Hn).
+      change (pg_id (pg_id g, pg_name g, x :: r)) with (pg_id g).
+      split; [intros [H|H]; [right; subst h; reflexivity | left; exact H] | intros [H|H]; [right; exact H | left; inversion H; reflexivity]].
+  - split; [exact Hn|]. intros h. split.
+    + intros Hh. destruct (N.eq_dec (pg_id h) (pg_id g)) as [E|E]; [right | left; split; assumption].
+      f_equal. symmetry. eapply ids_inj; eassumption.
+    + intros [[H _]|H]; [exact H | inversion H; subst; exact Hg].
+Qed.
+
+Lemma sfold_spec c : forall T L, NoDup (map pg_id L) -> NoDup (map pg_id T) -> (forall g, In g T -> In g L) ->
+  NoDup (map pg_id (fold_left (sstep c) T L)) /\
+  forall h, In h (fold_left (sstep c) T L) <->
+            (In h L /\ ~ In (pg_id h) (map pg_id T)) \/ exists g, In g T /\ scrub1 c g = Some h.
+Proof.
+  induction T as [|g T IH]; intros L HL HT Hsub; simpl.
+  - split; [exact HL|]. intros h. split; [intros H; left; split; [exact H | intros []] | intros [[H _]|[g [[] _]]]; exact H].
+  - inversion HT as [|? ? Hn Hr]; subst.
+    destruct (sstep_spec c L g HL (Hsub g (or_introl eq_refl))) as [H1 H2].
+    destruct (IH (sstep c L g) H1 Hr) as [H3 H4].
+    { intros g' Hg'. apply H2. left. split; [apply Hsub; right; exact Hg'|].
+      intros E. apply Hn. rewrite <- E. apply in_map. exact Hg'. }
+    split; [exact H3|]. intros h. rewrite H4, H2. split.
+    + intros [[[[Hh Hne]|Hs] Hni]|[g' [Hg' Hs]]].
+      * left. split; [exact Hh|]. intros [E|Hin]; [congruence | exact (Hni Hin)].
+      * right. exists g. split; [left; reflexivity | exact Hs].
+      * right. exists g'. split; [right; exact Hg' | exact Hs].
+    + intros [[Hh Hni]|[g' [[<-|Hg'] Hs]]].
+      * left. split; [left; split; [exact Hh | intros E; apply Hni; left; congruence] | intros Hin; apply Hni; right; exact Hin].
+      * left. split; [right; exact Hs|]. rewrite (scrub1_id _ _ _ Hs). exact Hn.
+      * right. exists g'. split; assumption.
+Qed.
+
+(* memory scrubs its own list M; the file applies, block by block, what memory says, to its list F (same blocks) *)
+Lemma scrub_equiv c M F : NoDup (map pg_id M) -> pgs_equiv F M ->
+  pgs_equiv (fold_left (sstep c) M F) (scrub c M).
+Proof.
+  intros HM He. pose proof (pgs_equiv_ids _ _ HM (pgs_equiv_sym _ _ He)) as HF.
+  destruct (sfold_spec c M F HF HM) as [H1 H2]; [intros g Hg; apply He; exact Hg|].
+  apply pgs_equiv_of_nodup; [exact H1 | apply scrub_ids_nodup; exact HM|].
+  intros h. rewrite H2, scrub_In. split; [|intros H; right; exact H].
+  intros [[Hh Hni]|H]; [|exact H]. exfalso. apply Hni. apply in_map. apply He. exact Hh.
+Qed.
+
+(* ---- file primitives on the property-group block ---- *)
+Definition set_pgs (n : fnode) (L : list pgroup) : fnode :=
+  {| fattrs := with_pgs (fattrs n) L; faddr := faddr n; flinks := flinks n |}.
+
+Lemma set_pgs_id n : set_pgs n (apgs (fattrs n)) = n.
+Proof. destruct n as [a ad li]. unfold set_pgs. simpl. rewrite with_pgs_id. reflexivity. Qed.
+
+Lemma w_pgs_same x a f n : fget x (flat f) = Some n -> fget x (flat (w_pgs x a f)) = Some (set_pgs n (apgs a)).
+Proof. intros H. unfold w_pgs. rewrite H. simpl. apply fget_fset_same. Qed.
+Lemma w_pgs_none x a f : fget x (flat f) = None -> w_pgs x a f = f.
+Proof. intros H. unfold w_pgs. rewrite H. reflexivity. Qed.
+Lemma w_pgs_frame x a f y : y <> x -> fget y (flat (w_pgs x a f)) = fget y (flat f).
+Proof. intros H. unfold w_pgs. destruct (fget x (flat f)); simpl; [|reflexivity]. apply fget_fset_other. exact H. Qed.
+Lemma w_pgs_nodup x a f : NoDup (map fst (flat f)) -> NoDup (map fst (flat (w_pgs x a f))).
+Proof. intros H. unfold w_pgs. destruct (fget x (flat f)); simpl; [|exact H]. apply fset_keys_NoDup. exact H. Qed.
+Lemma w_pgs_rootlink x a f : rootlink (w_pgs x a f) = rootlink f.
+Proof. unfold w_pgs. destruct (fget x (flat f)); reflexivity. Qed.
+
+Lemma w_pg_put_same x g f n : fget x (flat f) = Some n ->
+  fget x (flat (w_pg_put x g f)) = Some (set_pgs n (pg_put g (apgs (fattrs n)))).
+Proof. intros H. unfold w_pg_put. rewrite H. rewrite (w_pgs_same _ _ _ _ H). reflexivity. Qed.
+Lemma w_pg_put_frame x g f y : y <> x -> fget y (flat (w_pg_put x g f)) = fget y (flat f).
+Proof. intros H. unfold w_pg_put. destruct (fget x (flat f)); [apply w_pgs_frame; exact H | reflexivity]. Qed.
+Lemma w_pg_put_nodup x g f : NoDup (map fst (flat f)) -> NoDup (map fst (flat (w_pg_put x g f))).
+Proof. intros H. unfold w_pg_put. destruct (fget x (flat f)); [apply w_pgs_nodup; exact H | exact H]. Qed.
+Lemma w_pg_put_rootlink x g f : rootlink (w_pg_put x g f) = rootlink f.
+Proof. unfold w_pg_put. destruct (fget x (flat f)); [apply w_pgs_rootlink | reflexivity]. Qed.
+
+Lemma w_pg_del_same x i f n : fget x (flat f) = Some n ->
+  fget x (flat (w_pg_del x i f)) = Some (set_pgs n (pg_del i (apgs (fattrs n)))).
+Proof. intros H. unfold w_pg_del. rewrite H. rewrite (w_pgs_same _ _ _ _ H). reflexivity. Qed.
+Lemma w_pg_del_frame x i f y : y <> x -> fget y (flat (w_pg_del x i f)) = fget y (flat f).
+Proof. intros H. unfold w_pg_del. destruct (fget x (flat f)); [apply w_pgs_frame; exact H | reflexivity]. Qed.
+Lemma w_pg_del_nodup x i f : NoDup (map fst (flat f)) -> NoDup (map fst (flat (w_pg_del x i f))).
+Proof. intros H. unfold w_pg_del. destruct (fget x (flat f)); [apply w_pgs_nodup; exact H | exact H]. Qed.
+Lemma w_pg_del_rootlink x i f : rootlink (w_pg_del x i f) = rootlink f.
+Proof. unfold w_pg_del. destruct (fget x (flat f)); [apply w_pgs_rootlink | reflexivity]. Qed.
+
+Definition wstep (x c : key) (f : file) (g : pgroup) : file :=
+  if mem_key c (pg_members g)
+  then match rm_member c (pg_members g) with
+       | [] => w_pg_del x (pg_id g) f
+       | ms => w_pg_put x (pg_id g, pg_name g, ms) f
+       end
+  else f.
+
+Lemma w_scrub_eq x c M f : w_scrub x c M f = fold_left (wstep x c) M f.
+Proof. reflexivity. Qed.
+
+Lemma wstep_same x c f g n : fget x (flat f) = Some n ->
+  fget x (flat (wstep x c f g)) = Some (set_pgs n (sstep c (apgs (fattrs n)) g)).
+Proof.
+  intros H. unfold wstep, sstep. destruct (mem_key c (pg_members g)).
+  - destruct (rm_member c (pg_members g)); [apply w_pg_del_same; exact H | apply w_pg_put_same; exact H].
+  - rewrite set_pgs_id. exact H.
+Qed.
+Lemma wstep_frame x c f g y : y <> x -> fget y (flat (wstep x c f g)) = fget y (flat f).
+Proof.
+  intros H. unfold wstep. destruct (mem_key c (pg_members g)); [|reflexivity].
+  destruct (rm_member c (pg_members g)); [apply w_pg_del_frame; exact H | apply w_pg_put_frame; exact H].
+Qed.
+Lemma wstep_nodup x c f g : NoDup (map fst (flat f)) -> NoDup (map fst (flat (wstep x c f g))).
+Proof.
+  intros H. unfold wstep. destruct (mem_key c (pg_members g)); [|exact H].
+  destruct (rm_member c (pg_members g)); [apply w_pg_del_nodup; exact H | apply w_pg_put_nodup; exact H].
+Qed.
+Lemma wstep_rootlink x c f g : rootlink (wstep x c f g) = rootlink f.
+Proof.
+  unfold wstep. destruct (mem_key c (pg_members g)); [|reflexivity].
+  destruct (rm_member c (pg_members g)); [apply w_pg_del_rootlink | apply w_pg_put_rootlink].
+Qed.
+
+Lemma w_scrub_same x c M : forall f n, fget x (flat f) = Some n ->
+  fget x (flat (w_scrub x c M f)) = Some (set_pgs n (fold_left (sstep c) M (apgs (fattrs n)))).
+Proof.
+  intros f n. rewrite w_scrub_eq. revert f n. induction M as [|g M IH]; intros f n H; simpl.
+  - rewrite set_pgs_id. exact H.
+  - rewrite (IH _ _ (wstep_same x c f g n H)). reflexivity.
+Qed.
+Lemma w_scrub_frame x c M y : y <> x -> forall f, fget y (flat (w_scrub x c M f)) = fget y (flat f).
+Proof.
+  intros H f. rewrite w_scrub_eq. revert f. induction M as [|g M IH]; intros f; simpl; [reflexivity|].
+  rewrite IH. apply wstep_frame. exact H.
+Qed.
+Lemma w_scrub_nodup x c M : forall f, NoDup (map fst (flat f)) -> NoDup (map fst (flat (w_scrub x c M f))).
+Proof.
+  intros f. rewrite w_scrub_eq. revert f. induction M as [|g M IH]; intros f H; simpl; [exact H|]. apply IH. apply wstep_nodup. exact H.
+Qed.
+Lemma w_scrub_rootlink x c M : forall f, rootlink (w_scrub x c M f) = rootlink f.
+Proof.
+  intros f. rewrite w_scrub_eq. revert f. induction M as [|g M IH]; intros f; simpl; [reflexivity|]. rewrite IH. apply wstep_rootlink.
 Qed.
